@@ -156,6 +156,12 @@ def guard_of_value(v):
 
 
 def project(path):
+    """the projection of a path with the events of diagnostic fields (rules/diag.py) removed"""
+    import diag
+    return diag.strip(path.body, project_raw(path))
+
+
+def project_raw(path):
     """returns list of SEv.  Section id = index of the LOCK event whose guard is live."""
     out = []
     held = []  # stack of (guard_token, sec_id)
